@@ -61,7 +61,7 @@ def keep_c12(c, quick):
         return c["w"] in C12_W32 and (not quick or c["n"] == 9)
     if c["fn"] == "page_delta":
         return True
-    if c["fn"] in ("make_definitions", "read_plain_t", "ba_roundtrip", "dict_roundtrip"):
+    if c["fn"] in ("make_definitions", "read_plain_t", "ba_roundtrip", "dict_roundtrip", "codec_threads"):
         return False
     if c["fn"] == "delta_unpack" and m.get("pattern") == "stale":
         return True
@@ -681,6 +681,11 @@ def judge(ctx, pid, c, r, mo, so, guard, sanitize, verbose=False, memory_only=Fa
     # the theorem's guard, evaluated on the case, must imply a safe model verdict
     if f["safe"](c):
         ctx.correspondence("guard of the %s theorem => impl model returns Ok" % fn, short(c), True, model_ok)
+    if r[0] == "changed":
+        # the value the codec function returned was right after the call (or this line would not replace the first one) and
+        # showed something else after later calls: it was a view of state that outlives the call
+        return ctx.fail(dict(cls, kind="result-changed-after-later-calls", verdict=mtag or "ok"), short(c),
+                        "the result of %s changed while the library went on decoding/encoding other inputs: was %s, now %s" % (fn, r[1][:160], r[2][:160]))
     crashed = r[0] in ("crash", "asan", "ubsan", "missing")
     if crashed:
         failed |= ctx.fail(dict(cls, kind=r[0], verdict=mtag or "ok"), short(c), "real code: %r" % (r,))
@@ -735,7 +740,14 @@ def replay_case(case, sanitize, memory_only=False):
     try:
         c = dict(case)
         f = FNS[c["fn"]]
-        r = L.run_real([worker_case(c)], tmp, sanitize=sanitize, nproc=1)[0]
+        batch = [worker_case(c)]
+        if "inp" in c and c["fn"] not in ("page_v1_dict", "page_v2_dict"):
+            # followed by the same call on the complemented input: a result that is a view of state outliving the call shows
+            # as `changed` (the worker re-examines every returned value after later calls)
+            c2 = dict(worker_case(c))
+            c2["inp"] = bytes(b ^ 0xFF for b in bytes.fromhex(c2["inp"])).hex()
+            batch.append(c2)
+        r = L.run_real(batch, tmp, sanitize=sanitize, nproc=1)[0]
         mo = L.pq_batch([f["model"](c)])[0]
         so = second_phase([c], [r], L.pq_batch([f["spec"](c)]))[0]
         print("case      :", json.dumps(short(c))[:1500])
@@ -1822,3 +1834,25 @@ FNS["dict_roundtrip"] = dict(model=lambda c: ("uleb_enc", 0), tagged=False, view
                              cls=lambda c: {"ncat_class": "int8" if c["ncat"] <= 128 else "int16" if c["ncat"] <= 32768 else "int32", "optional": c["optional"]},
                              trivial=lambda c: not c["codes"])
 EXTRA_GENERATORS.append(gen_dict_roundtrip)
+
+
+# =============================================================================================
+# results of distinct inputs alive at once: threads (the sequential form is generic: harness/codec_worker.py `hold`)
+# =============================================================================================
+
+def gen_codec_threads(rng, quick):
+    return [{"fn": "codec_threads", "n": n, "rounds": 60 if quick else 300, "stream": "main", "meta": {}} for n in ((40, 9000) if quick else (40, 1000, 9000, 20000))]
+
+
+def _ct_oracle(c, r, so, guard):
+    if r[0] != "ok":
+        return [(r[0], "codec functions in four threads: %r" % (r[:3],))]
+    if r[2]:
+        return [("values", "four threads calling codec functions on their own inputs: %d results were not the value of the caller's input any more "
+                 "when looked at after the call; e.g. %r" % (r[2], r[1][:3]))]
+    return []
+
+
+FNS["codec_threads"] = dict(model=lambda c: ("uleb_enc", 0), tagged=False, views=_info_views("none"), spec=lambda c: ("uleb_enc", 0),
+                            oracle=_ct_oracle, safe=lambda c: True, cls=lambda c: {}, trivial=lambda c: False)
+EXTRA_GENERATORS.append(gen_codec_threads)
